@@ -43,6 +43,64 @@ type Outcome struct {
 	Count    int           `json:"count"`
 	Sched    []int         `json:"sched"`
 	Trace    []sched.Event `json:"trace,omitempty"`
+	// HB: real-time precedence observed in this execution. {ta, ia, tb, ib} (1-based) = the ia-th call of thread ta had
+	// left the tracker (after-hook of its outermost method) before the ib-th call of thread tb was let into it
+	// (before-hook granted), so every effect of the first precedes every effect of the second. Only the latest such
+	// call per (thread, call) pair is listed; earlier ones follow from program order.
+	HB [][4]int `json:"hb"`
+}
+
+// hbOf derives the precedence pairs from the scheduler's event log; nil (no constraint) when the log does not have
+// exactly one outermost acquire/release interval per call.
+func hbOf(tr []sched.Event, threads [][]l1.Call) [][4]int {
+	n := len(threads)
+	depth := make([]int, n)
+	start := make([]int, n)
+	iv := make([][][2]int, n)
+	for idx, ev := range tr {
+		if ev.T < 0 || ev.T >= n {
+			return [][4]int{}
+		}
+		if ev.Phase == "acq" {
+			if depth[ev.T] == 0 {
+				start[ev.T] = idx
+			}
+			depth[ev.T]++
+		} else {
+			depth[ev.T]--
+			if depth[ev.T] < 0 {
+				return [][4]int{}
+			}
+			if depth[ev.T] == 0 {
+				iv[ev.T] = append(iv[ev.T], [2]int{start[ev.T], idx})
+			}
+		}
+	}
+	for t := 0; t < n; t++ {
+		if depth[t] != 0 || len(iv[t]) != len(threads[t]) {
+			return [][4]int{}
+		}
+	}
+	hb := [][4]int{}
+	for tb := 0; tb < n; tb++ {
+		for ib := range iv[tb] {
+			for ta := 0; ta < n; ta++ {
+				if ta == tb {
+					continue
+				}
+				last := -1
+				for ia := range iv[ta] {
+					if iv[ta][ia][1] < iv[tb][ib][0] {
+						last = ia
+					}
+				}
+				if last >= 0 {
+					hb = append(hb, [4]int{ta + 1, last + 1, tb + 1, ib + 1})
+				}
+			}
+		}
+	}
+	return hb
 }
 
 func runOnce(p Program, seed int64, prefix []int, mode sched.Mode, rng *rand.Rand, maxPre int, free bool) (*Outcome, *sched.Exec) {
@@ -130,6 +188,10 @@ func runOnce(p Program, seed int64, prefix []int, mode sched.Mode, rng *rand.Ran
 	if o.Outs == nil {
 		o.Outs = []l1.Out{}
 	}
+	o.HB = [][4]int{}
+	if ex != nil && !o.Deadlock && !o.Hang && pn == "" {
+		o.HB = hbOf(ex.Trace, p.Threads)
+	}
 	return o, ex
 }
 
@@ -156,6 +218,7 @@ func main() {
 	maxPre := flag.Int("preempt", -1, "pre-emption bound for the exhaustive search (-1: unbounded)")
 	budget := flag.Duration("budget", 0, "wall-clock budget per program for the exhaustive search (0: none)")
 	schedule := flag.String("schedule", "", "replay: run every program once under exactly this schedule (comma separated choices)")
+	hbCap := flag.Int("hbcap", 400, "distinct precedence relations kept per outcome")
 	free := flag.Int("free", 0, "free-running repetitions per program (for -race builds); no scheduler")
 	prof := flag.String("cpuprofile", "", "write a CPU profile")
 	flag.Parse()
@@ -183,8 +246,20 @@ func main() {
 		seen := map[string]*Outcome{}
 		n := 0
 		complete := false
+		variants := map[string]int{}
 		record := func(o *Outcome, ex *sched.Exec) {
-			k := key(o)
+			// an outcome is kept once per distinct precedence relation (at most hbCap of them, the rest without one)
+			base := key(o)
+			hk, _ := json.Marshal(o.HB)
+			if _, ok := seen[base+string(hk)]; !ok && len(o.HB) > 0 {
+				if variants[base] >= *hbCap {
+					o.HB = [][4]int{}
+					hk = []byte("[]")
+				} else {
+					variants[base]++
+				}
+			}
+			k := base + string(hk)
 			if s, ok := seen[k]; ok {
 				s.Count++
 				return
